@@ -51,14 +51,15 @@ def gen_project(rng, nested=False):
         flags = []
     if mode == "none" or (mode == "flags" and not flags):
         mode, flags = "none", []
-    return {"files": files, "mode": mode, "flags": flags, "answers": answers}
+    # every third project has a format-command: a file that gets an approved change is then formatted as a whole, every other file must stay byte for byte
+    return {"files": files, "mode": mode, "flags": flags, "answers": answers, "fmtcmd": rng.random() < 0.34}
 
 
 def sources(p):
     out = {}
     for i, cats in enumerate(p["files"]):
         body = "".join(f"def test_{c}():\n{(SITE.get(c) or NESTED[c])[0]}\n\n\n" for c in cats) or "def test_nothing():\n    pass\n"
-        out[f"test_f{i}.py"] = "from inline_snapshot import snapshot\n\n\n" + body
+        out[f"test_f{i}.py"] = "from inline_snapshot import snapshot\n\nHAND = [1,2,\n        3]   # hand-written layout\n\n\n" + body
     return out
 
 
@@ -93,7 +94,8 @@ def run_project(p):
     d = driver.scratch_dir("sessloop-")
     try:
         src = sources(p)
-        driver.write_project(d, dict(src, **{"pyproject.toml": ""}))
+        pyproject = '[tool.inline-snapshot]\nformat-command = "/venv/bin/python -m black -q -"\n' if p.get("fmtcmd") else ""
+        driver.write_project(d, dict(src, **{"pyproject.toml": pyproject}))
         shown, appr, pend = shown_approved(p)
         args, stdin, tty = [], b"", False
         if p["mode"] == "review":
@@ -117,7 +119,8 @@ def run_project(p):
                     obs.append((i, c, SITE[c][1] in after[f"test_f{i}.py"]))
         nobs = [(cid, marker in after[f"test_f{f}.py"]) for cid, cat, f, rem, enc, marker, k in changes_of(p)]
         reported = [c for c in CATS if f"{c.capitalize()} snapshots" in out]
-        return {"obs": obs, "nobs": nobs, "reported": reported, "rc": r["rc"], "internal": "INTERNALERROR" in out, "tail": out[-1200:], "infra": r.get("infra_error")}
+        untouched = [n for n in src if after[n] == src[n]]
+        return {"obs": obs, "nobs": nobs, "untouched": untouched, "reported": reported, "rc": r["rc"], "internal": "INTERNALERROR" in out, "tail": out[-1200:], "infra": r.get("infra_error")}
     finally:
         shutil.rmtree(d, ignore_errors=True)
 
@@ -127,6 +130,12 @@ def oracle(p, o):
     if o["internal"] or o["rc"] not in (0, 1):
         return f"the session ended with an internal error / exit status {o['rc']}"
     ch = changes_of(p)
+    # a file none of whose pending changes is written stays byte for byte (also when another file of the session is rewritten and formatted)
+    written_files = {c[2] for c, (cid, w) in zip(ch, o["nobs"]) if w}
+    for i in range(len(p["files"])):
+        if i not in written_files and f"test_f{i}.py" not in o["untouched"]:
+            return (f"test_f{i}.py was modified although none of its pending changes was written (flags {p['flags']}, mode {p['mode']}, "
+                    f"format-command {'set' if p.get('fmtcmd') else 'not set'})")
     for cid, written in o["nobs"]:
         _, c, i, _, enc, _, k = ch[cid]
         if k not in NESTED:
